@@ -112,7 +112,20 @@ def assumptions_ok(res):
     return bad, digest
 
 
+def extraction_targets():
+    """the .vo files Extract.v imports (a model file may have changed without the property file of this check depending on it)"""
+    txt = open(os.path.join(EXTR, "Extract.v")).read()
+    m = re.search(r"From FV Require Import\s+(.*?)\.\s*\n", txt, re.S)
+    mods = re.findall(r"\b([A-Z]\w*\.[A-Z]\w*)\b", m.group(1)) if m else []
+    return " ".join(x.replace(".", "/") + ".vo" for x in mods)
+
+
 def build_oracle():
+    tg = extraction_targets()
+    if tg:
+        okc, outc = coq_build(tg)
+        if not okc:
+            return False, "the models the oracle is extracted from do not build:\n" + outc[-1500:]
     src = [os.path.join(EXTR, "Extract.v"), os.path.join(EXTR, "driver.ml")]
     vo = []
     for d, _, fs in os.walk(COQ):
